@@ -134,16 +134,18 @@ def get_division_candidate(
 
     """
     # Look for exponent candidates among divisors
-    for idx2 in reversed(numpy.lexsort(x2.exponents.T)):
+    order2 = numpy.lexsort(x2.exponents.T)
+    for position2 in reversed(range(len(order2))):
+        idx2 = order2[position2]
         exponent2 = x2.exponents[idx2]
 
-        # Include coefficients where idx2 is non-zero and any potential
-        # candidates that is a better fit has coefficient zero. Exponent needs
-        # to be the biggest one around.
-        include2 = numpy.ones(x2.shape, dtype=bool)
-        for idx, exponent in enumerate(x2.exponents):
-            if numpy.all(exponent2 <= exponent):
-                include2 &= (x2.coefficients[idx] == 0) ^ (idx == idx2)
+        # Include divisors whose leading term is idx2: its coefficient is
+        # non-zero and every exponent further out in the (lexicographical)
+        # term order has coefficient zero. Dividing by the leading term of a
+        # proper term order is what makes the division terminate.
+        include2 = x2.coefficients[idx2] != 0
+        for idx in order2[position2 + 1 :]:
+            include2 = include2 & (x2.coefficients[idx] == 0)
         if not numpy.any(include2):
             continue
 
